@@ -113,6 +113,14 @@ def base_mesh(name):
         return _prism(8)
     if name == "torus":
         return _torus()
+    if name == "grid260":
+        # 67 600 vertices: one more than 16-bit indices can address
+        n = 260
+        x, y = np.meshgrid(np.arange(n, dtype=float), np.arange(n, dtype=float), indexing="ij")
+        V = np.column_stack([x.ravel(), y.ravel(), np.sin(x.ravel() * 0.1) + np.cos(y.ravel() * 0.07)])
+        idx = np.arange(n * n).reshape(n, n)
+        a, b, c, d = idx[:-1, :-1].ravel(), idx[1:, :-1].ravel(), idx[1:, 1:].ravel(), idx[:-1, 1:].ravel()
+        return V, np.vstack([np.column_stack([a, b, c]), np.column_stack([a, c, d])])
     if name == "two_boxes":
         V, F = _box()
         V2, F2 = _octa()
